@@ -1,0 +1,89 @@
+// +build verif
+
+package schedule
+
+import (
+	"fmt"
+	"sort"
+)
+
+// VerifScatterCounters lists the scatterer's history counters as
+// "<engine>.<peer|leader>.<group>.<store>=<count>" (engine "" = ordinary stores), sorted.
+// Verification hook: exports state, implements nothing.
+func (r *RegionScatterer) VerifScatterCounters() []string {
+	var out []string
+	dump := func(engine, kind string, s *selectedStores) {
+		s.mu.RLock()
+		defer s.mu.RUnlock()
+		for _, group := range s.groupDistribution.GetAllID() {
+			dist, ok := s.getDistributionByGroupLocked(group)
+			if !ok {
+				continue
+			}
+			for store, count := range dist {
+				out = append(out, fmt.Sprintf("%s.%s.%s.%d=%d", engine, kind, group, store, count))
+			}
+		}
+	}
+	dump("", "peer", r.ordinaryEngine.selectedPeer)
+	dump("", "leader", r.ordinaryEngine.selectedLeader)
+	for engine, ctx := range r.specialEngines {
+		dump(engine, "peer", ctx.selectedPeer)
+		dump(engine, "leader", ctx.selectedLeader)
+	}
+	sort.Strings(out)
+	return out
+}
+
+// VerifScatterRestore replaces the history counters by the given ones (the format of
+// VerifScatterCounters), using the scatterer's own constructors and Put.
+func (r *RegionScatterer) VerifScatterRestore(counters []string) {
+	r.ordinaryEngine = newEngineContext(r.ctx, r.ordinaryEngine.filters[:len(r.ordinaryEngine.filters)-1]...)
+	old := r.specialEngines
+	r.specialEngines = make(map[string]engineContext)
+	for engine, ctx := range old {
+		r.specialEngines[engine] = newEngineContext(r.ctx, ctx.filters[:len(ctx.filters)-1]...)
+	}
+	for _, c := range counters {
+		var engine, kind, group string
+		var store, count uint64
+		// engine and group contain no dots
+		parts := splitDots(c)
+		if len(parts) != 4 {
+			continue
+		}
+		engine, kind, group = parts[0], parts[1], parts[2]
+		if _, err := fmt.Sscanf(parts[3], "%d=%d", &store, &count); err != nil {
+			continue
+		}
+		ctx := r.ordinaryEngine
+		if engine != "" {
+			c, ok := r.specialEngines[engine]
+			if !ok {
+				continue
+			}
+			ctx = c
+		}
+		s := ctx.selectedPeer
+		if kind == "leader" {
+			s = ctx.selectedLeader
+		}
+		for i := uint64(0); i < count; i++ {
+			s.Put(store, group)
+		}
+	}
+}
+
+func splitDots(s string) []string {
+	var parts []string
+	cur := ""
+	for _, ch := range s {
+		if ch == '.' && len(parts) < 3 {
+			parts = append(parts, cur)
+			cur = ""
+			continue
+		}
+		cur += string(ch)
+	}
+	return append(parts, cur)
+}
